@@ -9,6 +9,7 @@ if ! git apply --check "$patch" 2>/dev/null; then echo "patch does not apply"; e
 git apply "$patch"
 trap 'cd /repo && git checkout -- . && git clean -fdq -- src rustradio_macros tests 2>/dev/null' EXIT
 cd /verif
+export VERIF_EVIDENCE_DIR=/verif/.build/mutant-evidence
 for p in "$@"; do
   out=$(VERIF_SEED=${VERIF_SEED:-1} ./check $p --tier ${TIER:-quick} 2>/dev/null); rc=$?
   echo "$p rc=$rc :: $(echo "$out" | grep -E '^(OK|VIOLATION|INCONCLUSIVE)' | head -1 | cut -c1-120)"
